@@ -134,6 +134,21 @@ func (k Keeper) CalculateBatchAllocation(ctx context.Context, auction types.Auct
 		mInfo.RefundMap[bidder] = reservedAmtByBidder[bidder].Sub(bidderRes.PayingAmount)
 	}
 
+	// Clear the matched status of the bids that were matched in a previous (provisional)
+	// matching but are not matched anymore, e.g. outbid during an extended round
+	matchedBidIds := map[uint64]struct{}{}
+	for _, bid := range matchRes.MatchedBids {
+		matchedBidIds[bid.Id] = struct{}{}
+	}
+	for _, bid := range bids {
+		if _, ok := matchedBidIds[bid.Id]; !ok && bid.IsMatched {
+			bid.SetMatched(false)
+			if err := k.Bid.Set(ctx, collections.Join(bid.AuctionId, bid.Id), bid); err != nil {
+				return mInfo, err
+			}
+		}
+	}
+
 	for _, bid := range matchRes.MatchedBids {
 		bid.SetMatched(true)
 		if err := k.Bid.Set(ctx, collections.Join(bid.AuctionId, bid.Id), bid); err != nil {
